@@ -9,7 +9,8 @@
 //!        "pre_exec":[0|errno|-1 ...]      (0 = Ok, errno>0 = Err(Os{code}), -1 = Err(Uncategorized))
 //!        "open":[{"fd":N,"path":"..","write":bool}]   descriptors to prepare for Stdio::RawFd
 //!        "wait":true|false|"try" (Child::wait / none / Child::try_wait loop),
-//!        "feed":"text"|null  (bytes written to a stdin pipe before waiting)}
+//!        "feed":"text"|null  (bytes written to a stdin pipe before waiting),
+//!        "bulk":bool (use Command::args / Command::envs instead of repeated arg / env)}
 //!
 //! Markers for the tracer are writes to descriptor -1 (EBADF, no effect):
 //!   MARK:spawn:begin                  just before `Command::spawn`
@@ -124,12 +125,21 @@ fn main() {
 
     let bin_ref: &UnixStr = &bin;
     let mut cmd = Command::new(bin_ref).unwrap();
-    for s in &args {
-        cmd.arg(s);
-    }
-    if let Some(envs) = plan["env"].as_array() {
-        for e in envs {
-            cmd.env(ustring(e.as_str().unwrap()));
+    let bulk = plan["bulk"].as_bool().unwrap_or(false);
+    if bulk {
+        // the iterator forms of the builder
+        cmd.args(args.iter().map(|s| -> &UnixStr { s }));
+        if let Some(envs) = plan["env"].as_array() {
+            cmd.envs(envs.iter().map(|e| ustring(e.as_str().unwrap())));
+        }
+    } else {
+        for s in &args {
+            cmd.arg(s);
+        }
+        if let Some(envs) = plan["env"].as_array() {
+            for e in envs {
+                cmd.env(ustring(e.as_str().unwrap()));
+            }
         }
     }
     if let Some(c) = &cwd {
@@ -220,7 +230,9 @@ fn main() {
             let try_mode = plan["wait"].as_str() == Some("try");
             if try_mode || plan["wait"].as_bool().unwrap_or(true) {
                 let waited = if try_mode {
-                    // Child::try_wait until the child is gone
+                    // Child::try_wait until the child is gone (try_wait keeps the stdin pipe open: close it
+                    // like `wait` does, or a child reading its stdin to the end never finishes)
+                    drop(child.stdin.take());
                     loop {
                         match child.try_wait() {
                             Ok(Some(st)) => break Ok(st),
